@@ -7,6 +7,8 @@ package main
 //                              VisitorBaseConfig.Complete and the Complete of every mapped type,
 //                              TypedVisitorConfig.UnmarshalJSON / MarshalJSON
 //   pkg/config/v1/proxy.go     TypedProxyConfig.UnmarshalJSON / MarshalJSON
+//   both                       the statement sequence of New{Proxy,Visitor}ConfigurerByType (newByTypeSteps) and the
+//                              json key of {Proxy,Visitor}BaseConfig.Type
 //   pkg/config/load.go         LoadConfigure: what it does with the package-level strict switch of v1
 //                              (mutex lock / unlock, the write, the decoding of the document), in execution order
 // and writes <out>/TypedConf.lean (+ TypedConf.json): the visitor types, the ordered steps of the visitor
@@ -22,6 +24,8 @@ import (
 	"go/token"
 	"os"
 	"path/filepath"
+	"reflect"
+	"strconv"
 	"strings"
 )
 
@@ -50,6 +54,10 @@ type typedFacts struct {
 	ProxyMarshal      string
 	VisitorMarshal    string
 	LoadEvents        []string // lock | setFlag | decode | unlock
+	ProxyNewByType    []string // statements of NewProxyConfigurerByType
+	VisitorNewByType  []string // statements of NewVisitorConfigurerByType
+	ProxyTypeKey      string   // json key of ProxyBaseConfig.Type
+	VisitorTypeKey    string   // json key of VisitorBaseConfig.Type
 }
 
 // ---------------------------------------------------------------- LoadConfigure and the strict switch
@@ -416,6 +424,83 @@ func translateTypedUnmarshalStmt(s ast.Stmt, kind string) (string, error) {
 	return "", fmt.Errorf("untranslatable Typed%sConfig.UnmarshalJSON statement: %s", kind, txt)
 }
 
+// statement shapes accepted in New{Proxy,Visitor}ConfigurerByType(p) (the type map is indexed with the parameter
+// itself — no folding, trimming or aliasing of the key — and the parameter is what lands in the Type field):
+func newByTypeSteps(fi *fileInfo, kind string) ([]string, error) {
+	fd, ok := fi.funcs["New"+kind+"ConfigurerByType"]
+	if !ok || fd.Body == nil {
+		return nil, fmt.Errorf("New%sConfigurerByType not found", kind)
+	}
+	if fd.Type.Params == nil || len(fd.Type.Params.List) != 1 || len(fd.Type.Params.List[0].Names) != 1 ||
+		render(fd.Type.Params.List[0].Type) != kind+"Type" {
+		return nil, fmt.Errorf("New%sConfigurerByType: expected exactly one parameter of type %sType", kind, kind)
+	}
+	p := fd.Type.Params.List[0].Names[0].Name
+	tm := strings.ToLower(kind) + "ConfigTypeMap"
+	steps := []string{}
+	var cfgVar string
+	for _, s := range fd.Body.List {
+		txt := renderStmt(s)
+		switch {
+		case txt == "v, ok := "+tm+"["+p+"]":
+			steps = append(steps, "lookupExact")
+		case txt == "if !ok { return nil; }":
+			steps = append(steps, "nilIfAbsent")
+		case cfgVar == "" && isNewOfStruct(s, kind) != "":
+			cfgVar = isNewOfStruct(s, kind)
+			steps = append(steps, "newOfStruct")
+		case cfgVar != "" && txt == cfgVar+".GetBaseConfig().Type = string("+p+")":
+			steps = append(steps, "setTypeFromArg")
+		case cfgVar != "" && txt == "return "+cfgVar:
+			steps = append(steps, "ret")
+		default:
+			return nil, fmt.Errorf("untranslatable New%sConfigurerByType statement: %s", kind, txt)
+		}
+	}
+	return steps, nil
+}
+
+// isNewOfStruct: `x := reflect.New(v).Interface().(<kind>Configurer)` → "x"
+func isNewOfStruct(s ast.Stmt, kind string) string {
+	as, ok := s.(*ast.AssignStmt)
+	if !ok || as.Tok != token.DEFINE || len(as.Lhs) != 1 || len(as.Rhs) != 1 {
+		return ""
+	}
+	ta, ok := as.Rhs[0].(*ast.TypeAssertExpr)
+	if !ok || render(ta.Type) != kind+"Configurer" || render(ta.X) != "reflect.New(v).Interface()" {
+		return ""
+	}
+	return render(as.Lhs[0])
+}
+
+// the json key of <kind>BaseConfig.Type: the key of the document the decoder writes into the configurer's own Type
+func baseTypeKey(fi *fileInfo, kind string) (string, error) {
+	st, ok := fi.structs[kind+"BaseConfig"]
+	if !ok {
+		return "", fmt.Errorf("%sBaseConfig not found", kind)
+	}
+	for _, f := range st.Fields.List {
+		for _, n := range f.Names {
+			if n.Name != "Type" {
+				continue
+			}
+			if render(f.Type) != "string" || f.Tag == nil {
+				return "", fmt.Errorf("%sBaseConfig.Type: expected a tagged string field", kind)
+			}
+			tag, err := strconv.Unquote(f.Tag.Value)
+			if err != nil {
+				return "", err
+			}
+			key := strings.Split(reflect.StructTag(tag).Get("json"), ",")[0]
+			if key == "" || key == "-" {
+				return "", fmt.Errorf("%sBaseConfig.Type has no json key", kind)
+			}
+			return key, nil
+		}
+	}
+	return "", fmt.Errorf("%sBaseConfig.Type not found", kind)
+}
+
 func typedUnmarshal(fi *fileInfo, kind string) ([]string, string, error) {
 	um, ok := fi.methods["Typed"+kind+"Config.UnmarshalJSON"]
 	if !ok || um.Body == nil {
@@ -531,6 +616,18 @@ func extractTypedConf(repo string) (*typedFacts, error) {
 		return nil, err
 	}
 	if fx.LoadEvents, err = loadConfigureEvents(repo, fset); err != nil {
+		return nil, err
+	}
+	if fx.ProxyNewByType, err = newByTypeSteps(pf, "Proxy"); err != nil {
+		return nil, err
+	}
+	if fx.VisitorNewByType, err = newByTypeSteps(vf, "Visitor"); err != nil {
+		return nil, err
+	}
+	if fx.ProxyTypeKey, err = baseTypeKey(pf, "Proxy"); err != nil {
+		return nil, err
+	}
+	if fx.VisitorTypeKey, err = baseTypeKey(vf, "Visitor"); err != nil {
 		return nil, err
 	}
 	return fx, nil
@@ -664,6 +761,23 @@ inductive LEv
 
 `)
 	w("def loadConfigureEvents : List LEv := %s\n\n", ul(fx.LoadEvents))
+	w(`/-- statements of New{Proxy,Visitor}ConfigurerByType(t) -/
+inductive NStep
+  | lookupExact      -- v, ok := …ConfigTypeMap[t]        (the map is indexed with the argument as it is)
+  | nilIfAbsent      -- if !ok { return nil }
+  | newOfStruct      -- x := reflect.New(v).Interface().(…Configurer)
+  | setTypeFromArg   -- x.GetBaseConfig().Type = string(t)
+  | ret              -- return x
+  deriving DecidableEq, Repr
+
+`)
+	w("def proxyNewByType : List NStep := %s\n", ul(fx.ProxyNewByType))
+	w("def visitorNewByType : List NStep := %s\n\n", ul(fx.VisitorNewByType))
+	w("/-- the document key UnmarshalJSON peeks the discriminator from (tag of typeStruct.Type) -/\n")
+	w("def peekKey : Str := %s  -- %q\n", leanBytes("type"), "type")
+	w("/-- the document key the decoder writes into {Proxy,Visitor}BaseConfig.Type (its json tag) -/\n")
+	w("def proxyBaseTypeKey : Str := %s  -- %q\n", leanBytes(fx.ProxyTypeKey), fx.ProxyTypeKey)
+	w("def visitorBaseTypeKey : Str := %s  -- %q\n\n", leanBytes(fx.VisitorTypeKey), fx.VisitorTypeKey)
 	w("end TypedConf\nend Gen\nend Frp\n")
 	return b.String()
 }
